@@ -616,6 +616,199 @@ fn execute_calls_only(sc: &Scenario) {
 }
 
 // ---------------------------------------------------------------------------------------------
+// the library UNHOOKED in a real scratch directory ("ossim-real")
+//
+// The simulated OS only sees what goes through the seams. Code that reaches the operating system
+// some other way (`Path::read_dir`, `Path::canonicalize`, `env::current_dir`, `env::var` ...) is
+// invisible there. These runs install no simulated OS at all: the seams pass through to std, the
+// process changes into a scratch directory holding the scenario's initial tree, and the library is
+// called with the paths as they are. Plain worlds are judged against the simulated run of the same
+// calls (values, error kinds, final tree: the model and the real thing must agree THROUGH the
+// library, not only at the seams). Odd worlds add what the model cannot hold - entry names that
+// are not UTF-8, symbolic links (to itself, to nothing, to a directory, to a file), a working
+// directory that has been removed - and are judged for panics, raised errors and declared types only.
+
+pub const REAL_LINKS: &[&str] = &["lnloop", "dang", "lnd", "lnf", "lnd/x"];
+
+/// paths a call of a real run may name: nothing absolute, nothing with `..` (except as the source
+/// of a copy or the file of a read, which only read)
+fn real_safe(call: &Call) -> bool {
+    call.func.starts_with("fs.")
+        && call.args.iter().enumerate().all(|(i, a)| {
+            let odd = a.starts_with('/') || a.split('/').any(|c| c == "..");
+            !odd || (i == 0 && matches!(call.func.as_str(), "fs.copy_file" | "fs.file_read_to_string"))
+        })
+}
+
+fn real_value_class(v: &Variable) -> String {
+    if let Variable::Struct(m) = v {
+        if let (Some(Variable::Int(k)), Some(Variable::String(_)), 2) = (m.get("error_code"), m.get("msg"), m.len()) {
+            return format!("ERR({k})");
+        }
+    }
+    cvar(v)
+}
+
+pub fn run_real(sc: &Scenario, extras: u8) -> RunReport {
+    crate::run::note_current(|| {
+        let mut j = sc.to_json();
+        j["sim"] = json!("ossim-real");
+        j["extras"] = json!(extras);
+        j
+    });
+    let mut sc = sc.clone();
+    sc.faults.clear();
+    sc.sticky = None;
+    sc.readonly.clear();
+    sc.calls.retain(real_safe);
+    let r = on_fresh_thread(sc.key_seed, move || {
+        let mut rep = RunReport::default();
+        let mut rng = Rng::new(sc.key_seed ^ 0x5ea1);
+        if extras & 2 != 0 {
+            // some calls name the links
+            for c in sc.calls.iter_mut() {
+                for a in c.args.iter_mut() {
+                    if !a.is_empty() && !a.starts_with('/') && !a.contains("..") && !a.contains('\0') && rng.chance(1, 4) {
+                        *a = REAL_LINKS[rng.below(REAL_LINKS.len())].to_string();
+                    }
+                }
+            }
+        }
+        // reference: the same calls against the simulated file system
+        let mut reference: Vec<String> = Vec::new();
+        let mut sim_tree = BTreeMap::new();
+        if extras == 0 {
+            os::install(make_os(&sc));
+            let interp = Interpreter::with_stdlib();
+            for call in &sc.calls {
+                let Some(Variable::Function(f)) = lookup(&interp, &call.func) else { continue };
+                let args: Vec<Variable> = call.args.iter().map(|s| Variable::from(s.as_str())).collect();
+                reference.push(match guarded(|| f.clone().create_call(args).map(|c| c.exec())) {
+                    Ok(Ok(Ok(v))) => real_value_class(&v),
+                    other => format!("{:?}", other.map(|r| r.map(|r| r.map(|_| ()).map_err(|e| e.to_string())).map_err(|e| cerror(&e)))),
+                });
+            }
+            sim_tree = os::uninstall().map(|o| o.nodes).unwrap_or_default();
+        }
+        os::uninstall();
+        let scratch = std::env::temp_dir().join(format!("verif-real-{}", std::process::id()));
+        let _ = std::fs::remove_dir_all(&scratch);
+        let setup = (|| -> std::io::Result<()> {
+            std::fs::create_dir_all(&scratch)?;
+            materialise(&scratch, &sc.init)?;
+            if extras & 1 != 0 {
+                use std::os::unix::ffi::OsStrExt;
+                let odd = std::ffi::OsStr::from_bytes(b"caf\xe9.txt");
+                let mut dirs: Vec<std::path::PathBuf> = vec![scratch.clone()];
+                dirs.extend(sc.init.iter().filter(|(_, c)| c.is_none()).map(|(p, _)| scratch.join(p)));
+                for d in dirs {
+                    if rng.chance(2, 3) {
+                        std::fs::write(d.join(odd), b"x")?;
+                    }
+                }
+                let odd_dir = scratch.join(std::ffi::OsStr::from_bytes(b"d\xff"));
+                std::fs::create_dir_all(&odd_dir)?;
+                std::fs::write(odd_dir.join("inner"), b"y")?;
+            }
+            if extras & 2 != 0 {
+                let _ = std::os::unix::fs::symlink("lnloop", scratch.join("lnloop"));
+                let _ = std::os::unix::fs::symlink("nowhere", scratch.join("dang"));
+                let _ = std::os::unix::fs::symlink("d", scratch.join("lnd"));
+                let _ = std::os::unix::fs::symlink("a", scratch.join("lnf"));
+            }
+            if extras & 4 != 0 {
+                let gone = scratch.join("gone");
+                std::fs::create_dir_all(&gone)?;
+                std::env::set_current_dir(&gone)?;
+                std::fs::remove_dir(&gone)?;
+            } else {
+                std::env::set_current_dir(&scratch)?;
+            }
+            Ok(())
+        })();
+        if let Err(e) = setup {
+            let _ = std::env::set_current_dir("/");
+            let _ = std::fs::remove_dir_all(&scratch);
+            rep.harness_error = Some(format!("real scratch directory could not be prepared: {e}"));
+            return rep;
+        }
+        let interp = Interpreter::with_stdlib();
+        let prefix = format!("{}/", scratch.to_string_lossy());
+        for (ci, call) in sc.calls.iter().enumerate() {
+            rep.events += 1;
+            let Some(Variable::Function(f)) = lookup(&interp, &call.func) else { continue };
+            let Type::Function(ft) = f.as_type() else { unreachable!() };
+            let ret_t = ft.return_type.clone();
+            // without a working directory relative names resolve nowhere: address the tree absolutely
+            let args: Vec<String> = call.args.iter().map(|a| if extras & 4 != 0 && !a.is_empty() && !a.starts_with('/') && !a.contains('\0') && rng.chance(2, 3) { format!("{prefix}{a}") } else { a.clone() }).collect();
+            let shown: Vec<String> = args.iter().map(|a| a.replace(&prefix, "<scratch>/")).collect();
+            let text = format!("std.{}({})", call.func, shown.iter().map(|s| str_lit(s)).collect::<Vec<_>>().join(", "));
+            let args_v: Vec<Variable> = args.iter().map(|s| Variable::from(s.as_str())).collect();
+            let value = match guarded(|| f.clone().create_call(args_v).map(|c| c.exec())) {
+                Err(p) => {
+                    rep.violation = Some(("panic".into(), format!("call {ci} `{text}` in a real directory (world: {}) panicked: {}", world_name(extras), p.replace(&prefix, "<scratch>/"))));
+                    break;
+                }
+                Ok(Err(e)) => {
+                    rep.violation = Some(("raised".into(), format!("call {ci} `{text}` in a real directory was rejected by the host API: {}", cerror(&e))));
+                    break;
+                }
+                Ok(Ok(Err(e))) => {
+                    rep.violation = Some(("raised".into(), format!("call {ci} `{text}` in a real directory raised instead of returning a value: {e}")));
+                    break;
+                }
+                Ok(Ok(Ok(v))) => v,
+            };
+            let class = real_value_class(&value);
+            rep.log.push(format!("{ci}: {text} -> {}", if class.starts_with("ERR(") { class.clone() } else { cvar(&value).replace(&prefix, "<scratch>/") }));
+            if !inhabits(&value, &ret_t) || !value.as_type().matches(&ret_t) {
+                rep.violation = Some(("result-type".into(), format!("call {ci} `{text}` in a real directory returned {} which is not a {}", cvar(&value), ctype(&ret_t))));
+                break;
+            }
+            if extras == 0 && reference.get(ci) != Some(&class) {
+                rep.violation = Some((
+                    "real-differs".into(),
+                    format!("call {ci} `{text}`: against the real file system the library returned {class}, against the simulated one {} (same initial tree, same calls, no fault)", reference.get(ci).cloned().unwrap_or_default()),
+                ));
+                break;
+            }
+        }
+        let _ = std::env::set_current_dir("/");
+        if extras == 0 && rep.violation.is_none() {
+            let mut real_tree = BTreeMap::new();
+            walk_real(&scratch, "", &mut real_tree);
+            if real_tree != sim_tree {
+                rep.violation = Some(("real-differs".into(), format!("after the calls the real directory holds {:?}, the simulated one {:?}", real_tree.keys().collect::<Vec<_>>(), sim_tree.keys().collect::<Vec<_>>())));
+            }
+        }
+        let _ = std::fs::remove_dir_all(&scratch);
+        rep.state_digest = digest(&format!("{:?}", rep.log));
+        rep
+    });
+    r.unwrap_or_else(|p| {
+        let _ = std::env::set_current_dir("/");
+        RunReport { harness_error: Some(format!("run thread panicked: {p}")), ..Default::default() }
+    })
+}
+
+pub fn world_name(extras: u8) -> String {
+    if extras == 0 {
+        return "plain".into();
+    }
+    let mut v = Vec::new();
+    if extras & 1 != 0 {
+        v.push("non-UTF-8 names");
+    }
+    if extras & 2 != 0 {
+        v.push("symbolic links");
+    }
+    if extras & 4 != 0 {
+        v.push("working directory removed");
+    }
+    v.join(" + ")
+}
+
+// ---------------------------------------------------------------------------------------------
 // fixed table: every other export once per run with boundary arguments (workload, not search)
 
 fn boundary_values(t: &Type, rng: &mut Rng, iters: &BTreeMap<String, Variable>) -> Option<Variable> {
@@ -1508,6 +1701,8 @@ pub fn worker(input: &Value) -> Value {
     let shards = input["shards"].as_u64().unwrap();
     let runs = input["runs"].as_u64().unwrap();
     let validate = input["validate_runs"].as_u64().unwrap_or(0);
+    let real_runs = input["real_runs"].as_u64().unwrap_or(0);
+    let mut real_done: BTreeMap<String, u64> = BTreeMap::new();
     let thorough = input["tier"].as_str() == Some("thorough");
     let mut enumerated = 0u64;
     let mut torn_n = 0u64;
@@ -1646,6 +1841,23 @@ pub fn worker(input: &Value) -> Value {
                 }
             }
         }
+        if real_done.values().sum::<u64>() < real_runs && !faulty {
+            let extras = { let k = derive_n(seed, "c18-real", run); if k % 2 == 0 { 0 } else { 1 + ((k >> 8) % 7) as u8 } };
+            let r = run_real(&sc, extras);
+            *real_done.entry(world_name(extras)).or_default() += 1;
+            events += r.events;
+            if let Some(h) = &r.harness_error {
+                harness_errors.push(json!({"what": h, "scenario": sc.to_json(), "extras": extras}));
+            }
+            if let Some((class, detail)) = &r.violation {
+                if violations.len() < 8 {
+                    let mut j = sc.to_json();
+                    j["sim"] = json!("ossim-real");
+                    j["extras"] = json!(extras);
+                    violations.push(json!({"class": class, "detail": detail, "subject_id": format!("real-run{run}"), "scenario": j, "log": r.log}));
+                }
+            }
+        }
         if validated < validate && !faulty {
             let scratch = std::env::temp_dir().join(format!("verif-ossim-{}-{}", std::process::id(), run));
             match validate_model(&sc, &scratch) {
@@ -1661,7 +1873,7 @@ pub fn worker(input: &Value) -> Value {
     json!({"boot_seed": boot_seed, "runs": n, "events": events, "triples": triples.iter().collect::<Vec<_>>(), "faults_fired": faults, "natural_errors": natural,
            "torn_effects": torn, "torn_seen_by_later_read": torn_seen, "fault_right_after_create": after_create, "lang_route_rejected": lang_rejected,
            "distinct_final_states": states.len(), "violations": violations, "harness_errors": harness_errors, "samples": samples,
-           "validated_against_real_fs": validated, "table_runs": table_runs, "trace": trace, "single_fault_enumeration_runs": enumerated, "torn_in_enumeration": torn_n})
+           "validated_against_real_fs": validated, "real_directory_runs": real_done, "table_runs": table_runs, "trace": trace, "single_fault_enumeration_runs": enumerated, "torn_in_enumeration": torn_n})
 }
 
 pub fn single(input: &Value) -> Value {
@@ -1670,6 +1882,7 @@ pub fn single(input: &Value) -> Value {
     let rep = match input["sim"].as_str().unwrap_or("ossim") {
         "ossim-import" => run_import_case(&import_case_from_json(input), input["key_seed"].as_u64().unwrap()),
         "ossim-table" => run_table(input["key_seed"].as_u64().unwrap(), input["arg_seed"].as_u64().unwrap()),
+        "ossim-real" => run_real(&Scenario::from_json(input), input["extras"].as_u64().unwrap_or(0) as u8),
         _ => run_scenario(&Scenario::from_json(input)),
     };
     json!({"violation": rep.violation.as_ref().map(|(c, d)| json!([c, d])), "log": rep.log, "harness_error": rep.harness_error, "trace_digest": trace_digest(&rep)})
@@ -1684,7 +1897,10 @@ pub fn minimise(input: &Value) -> Value {
     let sc = Scenario::from_json(&input["scenario"]);
     let class = input["class"].as_str().unwrap().to_string();
     crate::boot::boot(sc.boot_seed);
-    let fails = |s: &Scenario| run_scenario(s).violation.as_ref().map_or(false, |(c, _)| *c == class);
+    let real = input["scenario"]["sim"].as_str() == Some("ossim-real");
+    let extras = input["scenario"]["extras"].as_u64().unwrap_or(0) as u8;
+    let run = |s: &Scenario| if real { run_real(s, extras) } else { run_scenario(s) };
+    let fails = |s: &Scenario| run(s).violation.as_ref().map_or(false, |(c, _)| *c == class);
     if !fails(&sc) {
         return json!({"reproduced": false});
     }
@@ -1737,8 +1953,13 @@ pub fn minimise(input: &Value) -> Value {
         }
     }
     let best = build(&items, &min_init);
-    let rep = run_scenario(&best);
-    json!({"reproduced": true, "scenario": best.to_json(), "detail": rep.violation.as_ref().map(|v| v.1.clone()), "log": rep.log, "trials": trials})
+    let rep = run(&best);
+    let mut best_json = best.to_json();
+    if real {
+        best_json["sim"] = json!("ossim-real");
+        best_json["extras"] = json!(extras);
+    }
+    json!({"reproduced": true, "scenario": best_json, "detail": rep.violation.as_ref().map(|v| v.1.clone()), "log": rep.log, "trials": trials})
 }
 
 pub fn _touch() -> (Arc<Function>, u64) {
